@@ -32,6 +32,13 @@ func (c *ColBool) DecodeColumn(r *Reader, rows int) error {
 	if err := r.ReadFull(dst); err != nil {
 		return errors.Wrap(err, "read full")
 	}
+	for i, v := range dst {
+		// Bytes are interpreted as bool values directly, so only valid
+		// representations are allowed.
+		if v != boolTrue && v != boolFalse {
+			return errors.Errorf("[%d]: bad value %d for Bool", i, v)
+		}
+	}
 	return nil
 }
 
